@@ -111,6 +111,9 @@ pub(crate) fn park(location: Location) {
     if switch {
         Scheduler::switch();
     }
+
+    // Woken up by an unpark: consume it.
+    execution(|execution| execution.threads.active_mut().consume_unpark());
 }
 
 /// Add an execution branch point.
